@@ -93,9 +93,11 @@ func (r *rewriter) probes(s ast.Stmt) []ast.Stmt {
 			case *ast.IncDecStmt:
 				r.markWrite(writes, n.X)
 			case *ast.UnaryExpr:
-				if n.Op == token.AND {
-					r.markWrite(writes, n.X)
-				}
+				// taking an address is not an access by itself: counting it as a write
+				// raised a false race on `return &packageLevelError` from two tasks
+				// (a write THROUGH the pointer elsewhere is missed: a miss, never a
+				// false alarm)
+				_ = n
 			case *ast.CallExpr:
 				switch fun := unparen(n.Fun).(type) {
 				case *ast.Ident: // append's first argument is a write only when assigned back,
